@@ -67,7 +67,9 @@ def run_case(case, ctx):
             ctx.violations[-1]["case_override"] = dict(
                 case, sweep=False, calls=[dict(call_spec, sched={"draws": out.picks, "fallback": "first", "seed": 0})])
         try:
-            ctx.state([jsonable_ranking(canon_ranking(r)) for r in out.cons.consensus_rankings])
+            res = [jsonable_ranking(canon_ranking(r)) for r in out.cons.consensus_rankings]
+            ctx.state(res)
+            ctx.event("result", res)
         except Exception:
             pass
 
